@@ -69,14 +69,21 @@ func RunPlan(p *Plan, dir string, keepTrace bool) (res *Result) {
 		}
 	}()
 	w = New(p.Cfg, dir)
-	w.IdP.OnFire = w.Fire
 	for _, u := range p.Users {
 		w.IdP.AddUser(u.Email, u.Verified, u.Groups...)
 	}
 	d := &Driver{W: w, P: p, Res: res}
 	d.O = NewOracle(w, res)
+	w.IdP.OnFire = func(kind string) {
+		w.Fire(kind)
+	}
 	d.lastLoc = map[string]string{}
 	var oracleMu sync.Mutex
+	w.OnBackchannel = func(e *Exchange) {
+		oracleMu.Lock()
+		defer oracleMu.Unlock()
+		d.O.judgeProfileAnswer(e)
+	}
 	w.OnExchange = func(e *Exchange) {
 		oracleMu.Lock()
 		defer oracleMu.Unlock()
